@@ -556,3 +556,483 @@ def unique_minimiser(a0, a1, b0, b1):
     if len(uniq) == 1:
         return best[0]
     return None
+
+
+# ---------------------------------------------------------------------------------------------------------
+# correspondence
+# ---------------------------------------------------------------------------------------------------------
+
+def parse_conn(line):
+    head, su, ss, seg = [x.strip() for x in line.split("|")]
+    w = head.split()
+    assert w[0] == "conn"
+    segv = None if seg == "none" else seg.split()
+    return {"ballistic": w[1] == "1", "dv2": F(w[2]), "pt": (F(w[3]), F(w[4])), "iu": int(w[5]), "is": int(w[6]),
+            "tu": int(w[7]), "ts": int(w[8]), "su": [F(x) for x in su.split()], "ss": [F(x) for x in ss.split()],
+            "seg": None if segv is None else (int(segv[0]), int(segv[1]), F(segv[2]), F(segv[3]))}
+
+
+def conn_exact(m):
+    return m["seg"] is None or (is_dyadic(m["seg"][2]) and is_dyadic(m["seg"][3]))
+
+
+def compare_results(c, model, results):
+    """model: list of parsed conn dicts (model order); results: real _ConnectionResult list. Returns None or message."""
+    if len(model) != len(results):
+        return "model reports %d connections, code %d" % (len(model), len(results))
+    # group by equal model dv2 (stable order inside a group is only guaranteed when the floats are exact)
+    k = 0
+    n = len(model)
+    while k < n:
+        e = k
+        while e + 1 < n and model[e + 1]["dv2"] == model[k]["dv2"]:
+            e += 1
+        grp_m = model[k:e + 1]
+        grp_r = list(results[k:e + 1])
+        if all(conn_exact(m) for m in grp_m):
+            pairs = list(zip(grp_m, grp_r))
+        else:
+            key = lambda r: (int(r.index_u), int(r.index_s))
+            rm = {key(r): r for r in grp_r}
+            pairs = []
+            for m in grp_m:
+                if (m["iu"], m["is"]) not in rm:
+                    return "connection (%d,%d) of the model missing in the code's results at this rank" % (m["iu"], m["is"])
+                pairs.append((m, rm[(m["iu"], m["is"])]))
+        for m, r in pairs:
+            ex = conn_exact(m)
+            if (int(r.index_u), int(r.index_s)) != (m["iu"], m["is"]):
+                return "rank %d: model pair (%d,%d), code pair (%d,%d)" % (k, m["iu"], m["is"], r.index_u, r.index_s)
+            if (r.kind == "ballistic") != m["ballistic"]:
+                return "pair (%d,%d): kind %s vs model ballistic=%s" % (m["iu"], m["is"], r.kind, m["ballistic"])
+            dv = float(r.delta_v)
+            if ex:
+                okdv = (dv == math.sqrt(float(m["dv2"]))) if m["dv2"].denominator.bit_length() < 50 else False
+            else:
+                okdv = abs(dv * dv - float(m["dv2"])) <= 1e-11 * (1 + float(m["dv2"]))
+            if not okdv:
+                return "pair (%d,%d): delta_v %r vs model dv^2 %s" % (m["iu"], m["is"], dv, fr(m["dv2"]))
+            if not (same(r.point2d[0], m["pt"][0], ex) and same(r.point2d[1], m["pt"][1], ex)):
+                return "pair (%d,%d): point %r vs model %s" % (m["iu"], m["is"], r.point2d, (fr(m["pt"][0]), fr(m["pt"][1])))
+            su, ss = np.asarray(r.state_u, float).ravel(), np.asarray(r.state_s, float).ravel()
+            if len(su) != len(m["su"]) or len(ss) != len(m["ss"]) or not all(same(x, q, ex) for x, q in zip(su, m["su"])) \
+                    or not all(same(x, q, ex) for x, q in zip(ss, m["ss"])):
+                return "pair (%d,%d): reported states %r / %r vs model %s / %s" % (
+                    m["iu"], m["is"], su.tolist(), ss.tolist(), [fr(x) for x in m["su"]], [fr(x) for x in m["ss"]])
+            if (int(r.trajectory_index_u), int(r.trajectory_index_s)) != (m["tu"], m["ts"]):
+                return "pair (%d,%d): trajectory indices %r vs model %r" % (
+                    m["iu"], m["is"], (r.trajectory_index_u, r.trajectory_index_s), (m["tu"], m["ts"]))
+        k = e + 1
+    return None
+
+
+def ambiguous(c, model_all_pairs_dv2):
+    """True when a threshold decision of an inexact (non-dyadic) result is too close to call in floats"""
+    for dv2, exact in model_all_pairs_dv2:
+        if exact:
+            continue
+        for tol in (c["dv_tol"], c["bal_tol"]):
+            t2 = float(tol) ** 2
+            if abs(float(dv2) - t2) <= 1e-9 * (1 + t2):
+                return True
+    return False
+
+
+def broken(ctx, name, msg):
+    if not any(n == name for n, _ in ctx.broken):
+        ctx.broken.append((name, msg))
+    ctx.obligations[name] = False
+
+
+def report_direct(ctx, c, results, where):
+    bad = direct_check(c, results)
+    for key, msg in bad[:3]:
+        ctx.violation("%s:%s" % (where, key), msg, {"kind": "run", "where": where, "input": jsonable(c), "clause": key,
+                                                    "observed": [describe(r) for r in results][:8]})
+    return bad
+
+
+def describe(r):
+    return {"kind": r.kind, "delta_v": float(r.delta_v), "point2d": [float(r.point2d[0]), float(r.point2d[1])],
+            "state_u": np.asarray(r.state_u, float).tolist(), "state_s": np.asarray(r.state_s, float).tolist(),
+            "index_u": int(r.index_u), "index_s": int(r.index_s),
+            "trajectory_index_u": int(r.trajectory_index_u), "trajectory_index_s": int(r.trajectory_index_s)}
+
+
+def corr_run(ctx, cases, use_pipeline=False, name="correspondence:backend.run"):
+    """model vs real `_ConnectionsBackend.run` (or ConnectionPipeline.solve) on the given cases"""
+    text = []
+    for c in cases:
+        text += case_lines(c) + ["run"]
+    out = [l for l in ctx.lean_run("Drivers/C19.lean", "\n".join(text) + "\n") if l.strip()]
+    pos = 0
+    ok = True
+    nbad = 0
+    for c in cases:
+        hdr = out[pos].split()
+        assert hdr[0] == "n", out[pos]
+        n = int(hdr[1])
+        considered = int(hdr[3])
+        model = [parse_conn(l) for l in out[pos + 1: pos + 1 + n]]
+        pos += 1 + n
+        if use_pipeline:
+            results, src, tgt = real_solve(c)
+            meta = None
+        else:
+            resp = real_run(c)
+            results, meta = list(resp.results), resp.metadata
+        nontriv = len(results) > 0
+        ctx.case(key=("run", c["style"], len(c["pu"]), len(c["ps"]), len(results), tuple(sorted((m["seg"] is not None) for m in model)),
+                      tuple(m["ballistic"] for m in model)),
+                 nontrivial=nontriv, kind=("pipeline:" if use_pipeline else "run:") + c["style"] + (":hit" if nontriv else ":empty"),
+                 sample={"input": jsonable(c), "n_results": len(results)} if nontriv else None)
+        ctx.corr_cases += 1
+        bad = report_direct(ctx, c, results, "solve" if use_pipeline else "run")
+        msg = compare_results(c, model, results)
+        if msg is None and meta is not None and len(results) > 0:
+            if meta.get("accepted") != len(results) or meta.get("pairs_considered") != considered:
+                msg = "metadata %r vs model accepted=%d pairs_considered=%d" % (meta, len(results), considered)
+        if msg is None and use_pipeline:
+            # both manifolds received the payload with exactly these connections
+            for mf in (src, tgt):
+                pl = mf.services.dynamics.payloads
+                if len(pl) != 1 or list(pl[0].connections) != results:
+                    msg = "apply_connections payload differs from the returned results"
+        if msg is not None:
+            ok = False
+            nbad += 1
+            if nbad <= 3:
+                broken(ctx, name, "model and code disagree: %s on input %r" % (msg, jsonable(c)))
+    if ok:
+        ctx.obligations.setdefault(name, True)
+    return ok
+
+
+def corr_parts(ctx, cases):
+    """model vs the numba kernels one by one: _pair_counts, _exclusive_prefix_sum, _radpair2d, _nearest_neighbor_2d,
+    _refine_pairs_on_section (njit and py_func, explicit max_seg_len)"""
+    from hiten.algorithms.connections import backends as B
+    text = []
+    plan = []
+    for c in cases:
+        pu, ps, Xu, Xs, tu, ts = arrays(c)
+        nu, ns = len(c["pu"]), len(c["ps"])
+        k = ctx.rng.randrange(0, 6)
+        prs = [(ctx.rng.randrange(nu), ctx.rng.randrange(ns)) for _ in range(k)]
+        ml = ctx.rng.choice([F(1), F(2), F(3), F(5), F(10 ** 9)])
+        plan.append((c, prs, ml))
+        text += case_lines(c, ml) + ["radpair", "nn u", "nn s", "refine " + " ".join("%d %d" % p for p in prs)]
+    out = [l for l in ctx.lean_run("Drivers/C19.lean", "\n".join(text) + "\n") if l.strip()]
+    pos = 0
+    names = ["correspondence:pair_counts+prefix_sum", "correspondence:radpair2d", "correspondence:nearest_neighbor_2d",
+             "correspondence:refine_pairs_on_section"]
+    okall = {n: True for n in names}
+    for c, prs, ml in plan:
+        pu, ps, Xu, Xs, tu, ts = arrays(c)
+        counts_m = [int(x) for x in out[pos].split()[1:]]
+        offs_m = [int(x) for x in out[pos + 1].split()[1:]]
+        pairs_m = out[pos + 2].split()[1:]
+        nnu_m = [int(x) for x in out[pos + 3].split()[1:]]
+        nns_m = [int(x) for x in out[pos + 4].split()[1:]]
+        ref_m = out[pos + 5][len("refine"):].strip()
+        pos += 6
+        ctx.case(key=("parts", c["style"], len(c["pu"]), len(c["ps"]), len(pairs_m), fr(c["eps"])), nontrivial=len(pairs_m) > 0,
+                 kind="parts:" + c["style"])
+        r2 = float(c["eps"]) * float(c["eps"])
+        counts = B._pair_counts(pu, ps, r2)
+        offs = B._exclusive_prefix_sum(counts)
+        if counts.tolist() != counts_m or offs.tolist() != offs_m:
+            okall[names[0]] = False
+            broken(ctx, names[0], "counts/offs %r %r vs model %r %r on %r" % (counts.tolist(), offs.tolist(), counts_m, offs_m, jsonable(c)))
+        prs_real = B._radpair2d(pu, ps, float(c["eps"]))
+        got = ["%d,%d" % (int(a), int(b)) for a, b in prs_real]
+        if got != pairs_m:
+            okall[names[1]] = False
+            broken(ctx, names[1], "pairs %r vs model %r on %r" % (got, pairs_m, jsonable(c)))
+        # direct: the pairs array is exactly the set of in-radius pairs (exact rational brute force)
+        eps2 = F(c["eps"]) ** 2
+        want = ["%d,%d" % (i, j) for i in range(len(c["pu"])) for j in range(len(c["ps"])) if d2q(c["pu"][i], c["ps"][j]) <= eps2]
+        if got != want:
+            ctx.violation("radpair:pairs-array", "_radpair2d returns %r, in-radius pairs are %r" % (got, want),
+                          {"kind": "radpair", "input": jsonable(c), "expected": want, "observed": got})
+        for pts, arr, nn_m, tag in ((c["pu"], pu, nnu_m, "u"), (c["ps"], ps, nns_m, "s")):
+            nn = B._nearest_neighbor_2d(arr).tolist() if len(pts) >= 1 else []
+            if nn != nn_m:
+                okall[names[2]] = False
+                broken(ctx, names[2], "nn %r vs model %r on points %r" % (nn, nn_m, [[fr(v) for v in p] for p in pts]))
+            for i, j in enumerate(nn):
+                w = first_nn(pts, i)
+                if (w < 0) != (j < 0) or (j >= 0 and (j == i or d2q(pts[i], pts[j]) != d2q(pts[i], pts[w]))):
+                    ctx.violation("nearest-neighbor", "nearest neighbour of point %d is reported as %d, brute force %d" % (i, j, w),
+                                  {"kind": "nn", "points": [[fr(v) for v in p] for p in pts], "observed": nn})
+                    break
+        # refinement on arbitrary pairs with explicit max_seg_len
+        if prs:
+            nn_u = B._nearest_neighbor_2d(pu) if len(c["pu"]) >= 2 else np.full(len(c["pu"]), -1, dtype=np.int64)
+            nn_s = B._nearest_neighbor_2d(ps) if len(c["ps"]) >= 2 else np.full(len(c["ps"]), -1, dtype=np.int64)
+            pr = np.asarray(prs, dtype=np.int64)
+            for fn, tag in ((B._refine_pairs_on_section, "njit"), (B._refine_pairs_on_section.py_func, "py")):
+                if tag == "py" and ctx.rng.random() < 0.5:
+                    continue
+                rstar, u0, u1, s0, s1, sv, tv, valid = fn(pu, ps, pr, nn_u.astype(np.int64), nn_s.astype(np.int64), float(ml))
+                rows_m = [x.split() for x in ref_m.split(";")]
+                for k, row in enumerate(rows_m):
+                    s_m, t_m = F(row[6]), F(row[7])
+                    ex = is_dyadic(s_m) and is_dyadic(t_m)
+                    okrow = (same(rstar[k, 0], F(row[0]), ex) and same(rstar[k, 1], F(row[1]), ex)
+                             and [int(u0[k]), int(u1[k]), int(s0[k]), int(s1[k])] == [int(x) for x in row[2:6]]
+                             and same(sv[k], s_m, ex) and same(tv[k], t_m, ex) and bool(valid[k]) == (row[8] == "1"))
+                    if not okrow:
+                        okall[names[3]] = False
+                        broken(ctx, names[3], "%s pair %r max_seg_len %s: code (%r,%r,%d,%d,%d,%d,%r,%r,%r) vs model %r on %r" % (
+                            tag, prs[k], fr(ml), rstar[k, 0], rstar[k, 1], u0[k], u1[k], s0[k], s1[k], sv[k], tv[k], bool(valid[k]),
+                            row, jsonable(c)))
+                        break
+    for n in names:
+        if okall[n]:
+            ctx.obligations.setdefault(n, True)
+    return all(okall.values())
+
+
+def closest_real(fn, seg):
+    return fn(*[float(v) for v in seg])
+
+
+def corr_closest(ctx, segs, name="correspondence:closest_points_on_segments_2d"):
+    """traced model (closestGen), hand model (closestCore) and the real routine (njit + py_func) on the same segment
+    pairs; plus the direct optimality check of the real outputs against an exact rational brute force."""
+    from hiten.algorithms.connections import backends as B
+    text = ["closest " + " ".join(fr(v) for v in s) for s in segs]
+    out = [l for l in ctx.lean_run("Drivers/C19.lean", "\n".join(text) + "\n") if l.strip()]
+    ok = True
+    nviol = 0
+    for idx, (s, line) in enumerate(zip(segs, out)):
+        g, h = line[len("closest"):].split("|")
+        gen = [F(x) for x in g.split()]
+        core = [F(x) for x in h.split()]
+        a0, a1, b0, b1 = (s[0], s[1]), (s[2], s[3]), (s[4], s[5]), (s[6], s[7])
+        ux, uy, vx, vy = s[2] - s[0], s[3] - s[1], s[6] - s[4], s[7] - s[5]
+        par = (ux * vy - uy * vx) == 0
+        cls = "degenerate" if (ux == uy == 0 or vx == vy == 0) else ("parallel" if par else "general")
+        ctx.case(key=("closest", cls, fr(gen[0]), fr(gen[1]), fr(d2q((gen[2], gen[3]), (gen[4], gen[5])))), kind="closest:" + cls)
+        if gen != core:
+            ok = False
+            broken(ctx, name, "traced closestGen %r differs from hand model closestCore %r on %r" % (
+                [fr(x) for x in gen], [fr(x) for x in core], [fr(v) for v in s]))
+        ex = is_dyadic(gen[0]) and is_dyadic(gen[1])
+        fns = [(B._closest_points_on_segments_2d, "njit")]
+        if idx % 4 == 0:
+            fns.append((B._closest_points_on_segments_2d.py_func, "py"))
+        for fn, tag in fns:
+            r = closest_real(fn, s)
+            if not all(same(x, q, ex) for x, q in zip(r, gen)):
+                ok = False
+                broken(ctx, name, "%s returns %r, model %r on segments %r" % (tag, tuple(float(x) for x in r), [fr(x) for x in gen], [fr(v) for v in s]))
+            # direct optimality check of the real output
+            sv, tv, px, py, qx, qy = [float(x) for x in r]
+            dmin = seg_min_d2(a0, a1, b0, b1)
+            d = d2q((F(px), F(py)), (F(qx), F(qy)))
+            on_a = seg_min_d2((F(px), F(py)), (F(px), F(py)), a0, a1)
+            on_b = seg_min_d2((F(qx), F(qy)), (F(qx), F(qy)), b0, b1)
+            scale = 1 + float(d2q(a0, b0)) + float(d2q(a0, a1)) + float(d2q(b0, b1))
+            if not (0.0 <= sv <= 1.0 and 0.0 <= tv <= 1.0 and float(on_a) <= 1e-18 * scale and float(on_b) <= 1e-18 * scale
+                    and float(d) <= float(dmin) + 1e-9 * scale):
+                nviol += 1
+                if nviol <= 3:
+                    ctx.violation("closest:%s" % cls,
+                                  "closest points of segments %s-%s and %s-%s: returned s=%r t=%r P=(%r,%r) Q=(%r,%r) at distance^2 %r, true minimum %s"
+                                  % (a0, a1, b0, b1, sv, tv, px, py, qx, qy, float(d), fr(dmin)),
+                                  {"kind": "closest", "segments": [fr(v) for v in s], "expected_min_dist2": fr(dmin),
+                                   "observed": [sv, tv, px, py, qx, qy], "impl": tag})
+    if ok:
+        ctx.obligations.setdefault(name, True)
+    return ok
+
+
+# ---------------------------------------------------------------------------------------------------------
+# float-valued clouds: direct check only (numerical shell; generous margins)
+# ---------------------------------------------------------------------------------------------------------
+
+def float_cases(ctx, n):
+    rng = ctx.rng
+    for _ in range(n):
+        nu, ns = rng.randrange(1, 40), rng.randrange(1, 40)
+        kind = rng.choice(["uniform", "clustered", "curve"])
+        if kind == "uniform":
+            pu = [(rng.uniform(-1, 1), rng.uniform(-1, 1)) for _ in range(nu)]
+            ps = [(rng.uniform(-1, 1), rng.uniform(-1, 1)) for _ in range(ns)]
+        elif kind == "clustered":
+            cs = [(rng.uniform(-1, 1), rng.uniform(-1, 1)) for _ in range(3)]
+            pu = [(c[0] + rng.gauss(0, 0.05), c[1] + rng.gauss(0, 0.05)) for c in (rng.choice(cs) for _ in range(nu))]
+            ps = [(c[0] + rng.gauss(0, 0.05), c[1] + rng.gauss(0, 0.05)) for c in (rng.choice(cs) for _ in range(ns))]
+        else:
+            ph = rng.uniform(0, 6.28)
+            pu = [(math.cos(6.28 * k / nu), 0.6 * math.sin(6.28 * k / nu)) for k in range(nu)]
+            ps = [(0.8 * math.cos(6.28 * k / ns + ph) + 0.1, 0.9 * math.sin(6.28 * k / ns + ph)) for k in range(ns)]
+        Xu = [[rng.uniform(-1, 1) for _ in range(6)] for _ in range(nu)]
+        Xs = [[rng.uniform(-1, 1) for _ in range(6)] for _ in range(ns)]
+        yield {"pu": pu, "ps": ps, "Xu": Xu, "Xs": Xs, "tu": None, "ts": [rng.randrange(9) for _ in range(ns)],
+               "eps": rng.choice([0.05, 0.2, 0.5, 3.0]), "dv_tol": rng.choice([0.3, 1.0, 2.0, 10.0]),
+               "bal_tol": rng.choice([0.1, 0.5, 1.5]), "style": "float-" + kind}
+
+
+def jsonable_f(c):
+    return {k: (val if k not in ("pu", "ps", "Xu", "Xs") else [list(map(float, r)) for r in val]) for k, val in c.items()}
+
+
+def float_search(ctx, n):
+    for c in float_cases(ctx, n):
+        resp = real_run(c)
+        results = list(resp.results)
+        ctx.case(key=("float", c["style"], len(c["pu"]), len(c["ps"]), len(results)), nontrivial=len(results) > 0, kind=c["style"])
+        bad = direct_check(c, results, rel=1e-9)
+        for key, msg in bad[:2]:
+            ctx.violation("run-float:%s" % key, msg, {"kind": "run-float", "input": jsonable_f(c), "clause": key,
+                                                      "observed": [describe(r) for r in results][:8]})
+
+
+# ---------------------------------------------------------------------------------------------------------
+# segment generators
+# ---------------------------------------------------------------------------------------------------------
+
+def grid_segments(m):
+    """all pairs of segments with endpoints on the m x m grid"""
+    pts = [(x, y) for x in range(m) for y in range(m)]
+    for a0, a1, b0, b1 in itertools.product(pts, repeat=4):
+        yield (F(a0[0]), F(a0[1]), F(a1[0]), F(a1[1]), F(b0[0]), F(b0[1]), F(b1[0]), F(b1[1]))
+
+
+def random_segments(rng, n):
+    out = []
+    for _ in range(n):
+        kind = rng.choice(["general", "parallel", "collinear", "degenerate", "half"])
+        R = 6
+        a0 = (rng.randrange(-R, R + 1), rng.randrange(-R, R + 1))
+        u = (rng.randrange(-R, R + 1), rng.randrange(-R, R + 1))
+        b0 = (rng.randrange(-R, R + 1), rng.randrange(-R, R + 1))
+        if kind == "general":
+            v = (rng.randrange(-R, R + 1), rng.randrange(-R, R + 1))
+        elif kind == "parallel":
+            k = rng.choice([-3, -2, -1, 1, 2, 3])
+            v = (k * u[0], k * u[1])
+        elif kind == "collinear":
+            k = rng.choice([-2, -1, 1, 2])
+            v = (k * u[0], k * u[1])
+            m = rng.randrange(-3, 4)
+            b0 = (a0[0] + m * u[0], a0[1] + m * u[1])
+        elif kind == "degenerate":
+            v = (rng.randrange(-R, R + 1), rng.randrange(-R, R + 1))
+            w = rng.randrange(3)
+            if w == 0:
+                u = (0, 0)
+            elif w == 1:
+                v = (0, 0)
+            else:
+                u = v = (0, 0)
+        else:
+            v = (rng.randrange(-R, R + 1), rng.randrange(-R, R + 1))
+        sc = F(1, 2) if kind == "half" else F(1)
+        seg = [a0[0], a0[1], a0[0] + u[0], a0[1] + u[1], b0[0], b0[1], b0[0] + v[0], b0[1] + v[1]]
+        out.append(tuple(F(x) * sc for x in seg))
+    return out
+
+
+# ---------------------------------------------------------------------------------------------------------
+# entry points
+# ---------------------------------------------------------------------------------------------------------
+
+PROPS = ["HitenModel.Props.C19"]
+SRC = ["HitenModel.Props.C19", "HitenModel.Lemmas.C19", "HitenModel.Core.C19", "HitenModel.Gen.C19"]
+
+
+def run(ctx):
+    try:
+        gen(ctx)
+    except Exception as e:  # the source left the ordered-field fragment or cannot be executed symbolically
+        broken(ctx, "trace:closest_points_on_segments_2d", "symbolic execution failed: %r" % (e,))
+    ok = ctx.lean_build(PROPS)
+    if ok:
+        ctx.lean_audit(PROPS, SRC)
+        if ctx.thorough():
+            ctx.leanchecker(PROPS)
+    th = ctx.thorough()
+    rng = ctx.rng
+    # 1. closest points: exhaustive 3x3 grid (6561 segment pairs) + random lattice/half-lattice segments
+    segs = list(grid_segments(3)) + random_segments(rng, 6000 if th else 1500)
+    if th:
+        allg4 = list(grid_segments(4))
+        segs += rng.sample(allg4, 12000)
+    try:
+        for k in range(0, len(segs), 4000):
+            corr_closest(ctx, segs[k:k + 4000])
+        ctx.log("closest-point correspondence on %d segment pairs done" % len(segs))
+    except RuntimeError as e:
+        broken(ctx, "correspondence:closest_points_on_segments_2d", "driver failed: %s" % str(e)[-800:])
+        direct_only_closest(ctx, segs)
+    # 2. whole backend on lattice clouds
+    cases = [gen_case(rng, small=True) for _ in range(1500 if th else 500)] + [gen_case(rng) for _ in range(3000 if th else 900)]
+    try:
+        for k in range(0, len(cases), 700):
+            corr_run(ctx, cases[k:k + 700])
+        ctx.log("backend.run correspondence on %d clouds done" % len(cases))
+        pcs = [gen_case(rng) for _ in range(120 if th else 40)]
+        for c in pcs:  # ConnectionOptions rejects non-positive values
+            for k in ("eps", "dv_tol", "bal_tol"):
+                if c[k] <= 0:
+                    c[k] = F(1, 2)
+        corr_run(ctx, pcs, use_pipeline=True, name="correspondence:ConnectionPipeline.solve")
+        parts = [gen_case(rng, small=(k % 3 == 0)) for k in range(1200 if th else 400)]
+        corr_parts(ctx, parts)
+        ctx.log("kernel-by-kernel correspondence on %d clouds done" % len(parts))
+    except RuntimeError as e:
+        broken(ctx, "correspondence:backend.run", "driver failed: %s" % str(e)[-800:])
+        for c in cases:
+            report_direct(ctx, c, list(real_run(c).results), "run")
+    # 3. float-valued clouds, direct check of the clauses
+    float_search(ctx, 400 if th else 120)
+    ctx.search_ran = True
+    ctx.rule = ("closest points: every pair of segments with endpoints on the 3x3 grid (6561) plus seeded random lattice/half-lattice "
+                "segments (general, parallel, collinear, degenerate); clouds: 1-8 lattice points per side (3x3 grid, collinear, "
+                "clustered, duplicated, half-integer), integer 6-D states, radii/tolerances from dyadic sets that contain the tie "
+                "values; a case is non-trivial when at least one connection is reported (run) / one pair is in radius (parts); "
+                "distinct by (style, sizes, number of results, refined/fallback pattern, labels) resp. by (class, s, t, distance)")
+    ctx.extra["exactness"] = ("model over Rat; real code in float64; compared for exact equality whenever the model's segment "
+                              "parameters s,t are dyadic (then every float operation is exact), to 1e-12 relative otherwise")
+
+
+def direct_only_closest(ctx, segs):
+    from hiten.algorithms.connections import backends as B
+    for s in segs:
+        r = closest_real(B._closest_points_on_segments_2d, s)
+        sv, tv, px, py, qx, qy = [float(x) for x in r]
+        a0, a1, b0, b1 = (s[0], s[1]), (s[2], s[3]), (s[4], s[5]), (s[6], s[7])
+        dmin = seg_min_d2(a0, a1, b0, b1)
+        d = d2q((F(px), F(py)), (F(qx), F(qy)))
+        scale = 1 + float(d2q(a0, b0)) + float(d2q(a0, a1)) + float(d2q(b0, b1))
+        if not (0.0 <= sv <= 1.0 and 0.0 <= tv <= 1.0 and float(d) <= float(dmin) + 1e-9 * scale):
+            ctx.violation("closest:direct", "closest points of %r: distance^2 %r, true minimum %s" % ([fr(v) for v in s], float(d), fr(dmin)),
+                          {"kind": "closest", "segments": [fr(v) for v in s], "expected_min_dist2": fr(dmin), "observed": [sv, tv, px, py, qx, qy]})
+            return
+
+
+def replay(ctx, rec):
+    """Re-run a recorded failing input against the real code."""
+    from hiten.algorithms.connections import backends as B
+    rp = rec.get("replay", rec)
+    kind = rp.get("kind")
+    if kind == "closest":
+        s = tuple(F(v) for v in rp["segments"])
+        direct_only_closest(ctx, [s])
+    elif kind in ("run", "run-float"):
+        c = unjson(rp["input"]) if kind == "run" else rp["input"]
+        if rp.get("where") == "solve":
+            results = real_solve(c)[0]
+        else:
+            results = list(real_run(c).results)
+        for key, msg in direct_check(c, results, rel=1e-12 if kind == "run" else 1e-9)[:3]:
+            ctx.violation("%s:%s" % (rp.get("where", "run"), key), msg, {"kind": kind, "input": rp["input"], "clause": key,
+                                                                         "observed": [describe(r) for r in results][:8]})
+    else:
+        run(ctx)
+        return
+    ctx.obligations["replay-executed"] = True
